@@ -14,6 +14,7 @@ From OrdV Require Import Base.Prelude Generated.
 From OrdV Require Codec.Varint Codec.Script Codec.EnvScript Codec.Envelope Codec.Cbor Codec.Runestone Codec.Storage.
 From OrdV Require Proofs.Envelope_proofs Proofs.Storage_proofs.
 From OrdV Require Properties.C25 Properties.C26 Properties.C27 Properties.C28 Properties.C35.
+From OrdV Require Index.Runes Proofs.Runes_supply Proofs.Runes_total Index.SatIndex Properties.C01.
 
 (* ---- 1. envelope extraction: RawEnvelope::from_transaction + ParsedEnvelope::from
    (src/inscriptions/envelope.rs, tag.rs; rust-bitcoin's instruction iterator and tapscript rule
@@ -95,11 +96,33 @@ Theorem C16_rune_balances_decode_total : forall l, Forall Storage_proofs.valid_b
   Storage.decode_rune_balances (length (Storage.encode_rune_balances l)) (Storage.encode_rune_balances l) = Ok l.
 Proof. exact C35.C35_rune_balances. Qed.
 
+(* ---- rune updater (src/index/updater/rune_updater.rs as modelled in Index/Runes.v, where every
+   Lot addition/subtraction, counter increment and u32 conversion is a Panic site): on a state
+   satisfying the conservation invariant and a block whose transactions satisfy what the runestone
+   decoder guarantees (edict outputs within range, Etching::supply() does not overflow), with fewer
+   than 2^32 transactions and fresh txids, index_block returns Ok — no Panic, no Err — and
+   re-establishes the invariant; hence every such chain is indexed from the empty index. *)
+Theorem C16_runes_index_block_total : forall first height st b,
+  Runes_total.StateOk height st -> Runes_total.BlockOk height st b ->
+  exists st', Runes.index_block first height st b = Ok st' /\ Runes_total.StateOk (height + 1) st'.
+Proof. exact Runes_total.runes_index_total. Qed.
+
+Theorem C16_runes_index_chain_total : forall first height bs,
+  Runes_total.chain_ok height bs -> NoDup (Runes_supply.txids bs) ->
+  N.of_nat (length (Runes_supply.txids bs)) <= U64_MAX ->
+  exists sts, Runes.index_chain first height Runes.empty_state bs = Ok sts.
+Proof. exact Runes_total.runes_index_chain_total_from_empty. Qed.
+
+(* ---- sat index (index_transaction_sats as modelled in Index/SatIndex.v, where
+   `expect("insufficient inputs for transaction outputs")` is a Panic site): every valid chain
+   (inputs unspent, inputs >= outputs, coinbase <= subsidy + fees) is indexed. *)
+Theorem C16_sat_index_total : forall c,
+  SatIndex.valid c = true -> exists st, SatIndex.run c = Ok st /\ SatIndex.v_run 0 [] c = Some (SatIndex.vabs (SatIndex.utxo st)).
+Proof. exact C01.C01_valid_chain_indexed. Qed.
+
 (* ---- placeholder list for later contributions (not theorems yet):
-     runes_index_total     rune updater: Lot arithmetic, counters (Index/Runes.v returns Res)
-     sat_index_total       "insufficient inputs" / calculate_sat unreachable!
-     inscription_updater_total   table unwraps, i32/u32 counters
-   They are to be added here under C16_ names when their developments provide them. *)
+     inscription_updater_total   table unwraps, i32/u32 counters, calculate_sat unreachable!
+   To be added here under a C16_ name when its development provides it. *)
 
 Print Assumptions C16_envelope_parsing_total.
 Print Assumptions C16_pointer_decoding_total.
@@ -111,3 +134,6 @@ Print Assumptions C16_utxo_entry_builder_total.
 Print Assumptions C16_utxo_empty_total.
 Print Assumptions C16_sat_range_store_total.
 Print Assumptions C16_rune_balances_decode_total.
+Print Assumptions C16_runes_index_block_total.
+Print Assumptions C16_runes_index_chain_total.
+Print Assumptions C16_sat_index_total.
